@@ -474,3 +474,17 @@ Definition ref_line_delete (body : list chr) (a z : Z) : list chr * list chr :=
   (firstn (Z.to_nat a) body ++ skipn (Z.to_nat z) body, firstn (Z.to_nat (z - a)) (skipn (Z.to_nat a) body)).
 Definition lcmd (k : lkey) (y : N) (cnt : Z) : cmd :=
   match k with Lx => c_x y cnt | LX => c_X y cnt | LD => c_D y cnt end.
+(* ~ with a count flips the case of the span x would delete; r<c> with a count replaces n characters when
+   they exist; the results as line bodies *)
+Definition ref_tilde (body : list chr) (a z : Z) : list chr :=
+  firstn (Z.to_nat a) body ++ map (case_chr Otilde) (firstn (Z.to_nat (z - a)) (skipn (Z.to_nat a) body)) ++ skipn (Z.to_nat z) body.
+Definition ref_replace (body : list chr) (o n : Z) (c : chr) : list chr :=
+  firstn (Z.to_nat o) body ++ repeat c (Z.to_nat n) ++ skipn (Z.to_nat (o + n)) body.
+(* p / P: where the text of a character-wise register goes in the cursor line (after the cursor character for p,
+   unless the line is empty), and the row where the lines of a line-wise register go *)
+Definition ref_put_off (body : list chr) (o : Z) (after : bool) : Z := if after && negb (is_nil body) then o + 1 else o.
+Definition ref_put_row (r : Z) (after : bool) : Z := if after then r + 1 else r.
+(* a typed key that is plain text for the modelled insert mode: none of ^H DEL ^U ^W ^T ^D and not a newline *)
+Definition plain_key (k : chr) : bool := negb (existsb (N.eqb (b0 k)) [8; 127; 21; 23; 20; 4; 10]%N).
+(* where i / a start inserting in the cursor line *)
+Definition ref_ins_off (body : list chr) (o : Z) (append : bool) : Z := if append && negb (is_nil body) then o + 1 else o.
